@@ -387,11 +387,11 @@ struct Shared {
 static SHARED: std::sync::OnceLock<Shared> = std::sync::OnceLock::new();
 /// runner threads parked inside a refused allocation (their memory and stack stay allocated)
 static PARKED: AtomicU64 = AtomicU64::new(0);
-const MAX_PARKED: u64 = 300;
+const MAX_PARKED: u64 = 256;
 /// heap bytes held by parked threads (never freed) after which the worker also restarts
 static LEAKED: AtomicU64 = AtomicU64::new(0);
-const MAX_LEAKED: u64 = 1 << 30;
-const RUNNER_STACK: usize = 8 << 20;
+const MAX_LEAKED: u64 = 512 << 20;
+const RUNNER_STACK: usize = 4 << 20;
 pub const VOLUNTARY_EXIT: i32 = 88;
 
 /// Called by the allocation meter (on the runner thread, inside the allocator, meter disarmed) when a
@@ -502,6 +502,8 @@ fn runner(start: u64) -> ! {
 }
 
 fn worker(ctx: &Ctx, lo: u64, hi: u64, skip: &BTreeSet<u64>, cpu_limit_ms: u64) -> ! {
+    // one malloc arena: parked runner threads must not each reserve a 64 MiB per-thread arena
+    unsafe { libc::mallopt(libc::M_ARENA_MAX, 1) };
     let plan = plan(!ctx.quick());
     let pristine = pristine_of(&plan);
     let hi = hi.min(plan.total);
@@ -651,6 +653,10 @@ fn run_once(ctx: &Ctx, exe: &std::path::Path, lo: u64, hi: u64, skip: &BTreeSet<
         }
         WorkerEnd::Died { desc, in_flight } => {
             let idx = in_flight.filter(|&i| i >= committed && i < hi);
+            if desc.contains("code=Some(2)") {
+                eprintln!("MACHINERY: worker over [{lo},{hi}) reported a machinery failure: {desc}");
+                std::process::exit(2);
+            }
             let voluntary = desc.contains(&format!("code=Some({})", VOLUNTARY_EXIT));
             let refused = desc.contains(&format!("code=Some({})", meter::REFUSE_EXIT));
             let cpu = desc.contains(&format!("code=Some({})", CPU_EXIT));
